@@ -10,15 +10,20 @@ TECH = "contract-based deductive verification: VCs generated from the real sourc
 
 CLAIMED = {
     "C01": dict(
-        text="Proof level for the visibility decision tables: every path of the real is_private/is_special/is_class_private/is_imported/"
-             "is_exported/is_wildcard_exposed/is_public bodies is executed symbolically and proved equal to the documented table for all "
-             "names, kinds, parents, __all__ and import maps (loop-free, hence complete). Other clauses of C01 are added as further contracts.",
-        note="Restricted claim: only the clauses listed in evidence.coverage.contracts are decided; whole-module 'one member per bound name' is a paper "
-             "induction over the per-handler contracts. Trusted: pyvc executor semantics, documented table transcription, z3.",
+        text="Proof on the real bodies: the visibility decision tables (is_private/is_special/is_class_private/is_imported/is_exported/is_wildcard_exposed/is_public, "
+             "loop-free hence complete, for all names, kinds, parents, __all__ and import maps); and the Visitor handlers over symbolic ast nodes: visit_if "
+             "(TYPE_CHECKING flag restored on every exit, also before orelse), handle_attribute (one member per bound name, class/instance/module scope, "
+             "annotation/value/docstring/span, __all__ handling), handle_function (property/setter/deleter/overload folding, labels from decorators, spans), "
+             "visit_classdef, visit_module, decorators_to_labels and get_base_property (with the rsplit uniqueness lemma discharged by cvc5). "
+             "Whole-module agreement with the source (one member per bound name, docstrings and spans) is a bounded native catalogue of generated modules.",
+        note="Restricted claim: only the clauses listed in evidence.coverage.contracts are decided; the whole-module statement is a paper induction over the "
+             "per-handler contracts plus the bounded tier. ast node invariants assumed (lineno <= end_lineno, targets non-empty). Fixed: C01-D1/D2.",
         ref="DESIGN.md 3/C01"),
     "C02": dict(
         text="Proof for all lengths: the real get_parameters body (any rewrite of it in the supported subset) is proved equal to the CPython "
-             "ast.arguments alignment rule at Skolem indices of lazy symbolic sequences; counterexamples are replayed against inspect.signature.",
+             "ast.arguments alignment rule at Skolem indices of lazy symbolic sequences; counterexamples are replayed against inspect.signature. "
+             "Visitor.handle_function is proved to store exactly that list (annotations, defaults, kinds untouched; overload/property branches carry it), "
+             "Parameter.required and the Parameters lookup by name/index are proved, and a syntactic lemma shows the parameters statement reads only the signature.",
         note="Assumes ast.arguments validity (len(defaults) <= positional count, len(kw_defaults) == len(kwonlyargs)); expressions are opaque (C03).",
         ref="DESIGN.md 3/C02"),
     "C10": dict(
@@ -41,9 +46,12 @@ CLAIMED.update({
     "C16": dict(
         text="Per-operation proof on the real mixins/collections/Alias code over symbolic object trees: _get_parts, get_member/__getitem__ (modular recursion, "
              "dotted == chained), del_member/__delitem__ (deleted member gone, frame), __setitem__/set_member (parent/collection link, alias retargeting, frame), "
-             "Alias.target/parent setters (self-target guard, listing under current path), Object.path. Whole-history invariants are a bounded scenario sweep.",
+             "Alias.target/parent setters (self-target guard, listing under current path), Object.path. Whole-history invariants are bounded native tiers in the "
+             "statement's own shape: a scenario sweep, EVERY operation sequence up to a length bound (3 quick / 4 thorough) and random long sequences, each step "
+             "compared with a reference dictionary and the full invariant.",
         note="Distinct fixtures have distinct identities (aliasing cases built explicitly); path() abstracted per heap version; merge_stubs and "
-             "Alias.final_target taken by contract. Known finding C16-F1 (bottom-up construction) listed.",
+             "Alias.final_target taken by contract. Known findings C16-F1 (bottom-up construction) and C16-F2 (detached alias keeps its registration) listed; "
+             "fixed: C16-P1 (replacement by a parentless alias raised).",
         ref="DESIGN.md 3/C16"),
 })
 
@@ -117,7 +125,8 @@ CLAIMED.update({
         text="Proof on the real diff.py frontier functions: for an arbitrary old member, non-public => never reported, public and missing => exactly one "
              "ObjectRemovedBreakage against it, public and present => compared with the same-named new member; _type_based_yield dispatch (seen paths prevent "
              "re-entry, alias on either side => through targets, kinds differ => ObjectChangedKindBreakage, else the kind-specific comparison of exactly that pair); "
-             "_alias_incompatibilities never aborts on unresolvable or cyclic re-exports; removed base class and changed attribute value always reported; no iteration raises. "
+             "_alias_incompatibilities never aborts on unresolvable or cyclic re-exports; removed base class and changed attribute value always reported; no iteration raises; "
+             "cli.check exits 1 iff at least one breakage was yielded and 0 otherwise, on every path of the real function. "
              "Silence on compatible edits and reporting against a public path are a bounded native tier (edit catalogue).",
         note="is_public abstracted here (its table is proved in C01); additions are silent by construction (only old members are iterated). Fixed: D9 cyclic re-export abort (219114d).",
         ref="DESIGN.md 3/C11"),
@@ -128,7 +137,8 @@ CLAIMED.update({
         text="Proof on the real Object.resolve (own scope wins; import target for aliases; only NameResolutionError and only at the top scope; the enclosing class's own "
              "name short-cut only for non-module parents; otherwise the parent scope's answer for the same name), Function.resolve (__init__ parameter form), "
              "ExprName.canonical_path (never raises, bare name when unbound, segment-by-segment attribute chains), Visitor.visit_import / visit_importfrom for an "
-             "arbitrary imported name (bound name, target path, import map, self-import / submodule-import exceptions, runtime flag, span). "
+             "arbitrary imported name (bound name, target path, import map, self-import / submodule-import exceptions, runtime flag, span), "
+             "_build_attribute (value.attr: the new name is linked to the name on its left so it resolves segment by segment, a dotted chain stays one flat chain in source order). "
              "relative_to_absolute == importlib's _resolve_name is verified symbolically for levels 0..3 and nesting <= 3; agreement with CPython binding is a bounded native tier.",
         note="Modular recursion on the parent scope; ast invariants (asname None or non-empty). Code that raises NameError in CPython (names of an enclosing class used in a nested class body) is outside the domain.",
         ref="DESIGN.md 3/C04"),
@@ -138,7 +148,9 @@ CLAIMED.update({
     "C05": dict(
         text="Clause-restricted. Proof on the real code: the `from m import *` exposure table (is_wildcard_exposed), _expand_wildcard = order-preserving filter by exposure carrying "
              "the statement span, the merge rule of expand_wildcards for one arbitrary wildcard statement and exposed name (never raises, self-alias never created, new names "
-             "added as aliases to the exposed object under the importing module, statement removed iff expanded), every forwarding property of Alias (list read from the "
+             "added as aliases to the exposed object under the importing module, statement removed iff expanded), expand_exports for one arbitrary __all__ entry "
+             "(string kept; a reference to another module's __all__ replaced in place by that module's exports as they are after its own expansion, skipped when it is not "
+             "loaded; seen gains the module's path), every forwarding property of Alias (list read from the "
              "real class body) presents the final target's value or raises only the alias errors, Alias.members rebased under the alias. "
              "Equality of the composition with CPython's importer is a bounded native tier.",
         note="External package loading assumed done; set_member/del_member/get_member by contract (C16). Fixed: C05-F1 (expand_exports early return).",
